@@ -398,3 +398,7 @@ def distribution(descs, results):
     c = Counter(d["k"] for d in descs)
     errs = sum(1 for r in results for x in r["impl"] if x == "err")
     return {"by_kind": dict(c), "error_observations": errs}
+
+LEVEL_TEXT = ("Lean 4 theorems (unbounded over octaves/pitches/ticks; whole regenerated tables by kernel decision) about an "
+              "executable model of the conversion functions; the model is tied to the code by regenerating every table "
+              "from /repo on each run and by an exhaustive differential run over the finite domains the property names.")
